@@ -102,6 +102,20 @@ def add (cmp : K → K → Ordering) (dflt : V) (l : List (K × V)) (d : List (K
     | none => none
     | some a => assign cmp a kv.1 dflt kv.2) (some l)
 
+/-- `template<class K2, class T2> Map(const Map<K2,T2>& b)`: `foreach2(K2& k, const T2& v, b) { T _v = v; K _k = k; set(_k, _v); }`
+on the empty map; `fk`/`fv` are the implicit conversions `K2 -> K`, `T2 -> T` (ANY functions: a key conversion need not keep
+the order of the keys nor keep different keys different).  `Dic<T>(const Dic<T2>&)` goes through this constructor too. -/
+def convert {K2 V2 : Type} (cmp : K → K → Ordering) (fk : K2 → K) (fv : V2 → V) (b : List (K2 × V2)) : Option (List (K × V)) :=
+  b.foldl (fun acc kv => match acc with
+    | none => none
+    | some a => set cmp a (fk kv.1) (fv kv.2)) (some [])
+
+/-- `template<class K2, class T2> Dic(const Map<K2,T2>& b)`: `foreach2(K2& k, const T2& v, b) (*this)[k] = v;` -/
+def convertDic {K2 V2 : Type} (cmp : K → K → Ordering) (dflt : V) (fk : K2 → K) (fv : V2 → V) (b : List (K2 × V2)) : Option (List (K × V)) :=
+  b.foldl (fun acc kv => match acc with
+    | none => none
+    | some a => assign cmp a (fk kv.1) dflt (fv kv.2)) (some [])
+
 /-- `Map clone() const`: `Map b(*this); return b.dup();` — an element-wise copy of the array -/
 def clone (l : List (K × V)) : List (K × V) := l.map (fun kv => (kv.1, kv.2))
 
